@@ -43,7 +43,7 @@ type oblOut struct {
 func lockName(fk string, o *Obl) string {
 	n := o.Name
 	switch o.Kind {
-	case "lemma", "inv-entry", "dec":
+	case "lemma", "inv-entry", "dec", "lockframe":
 	case "post", "inv-step":
 		if i := strings.Index(n, "/e"); i >= 0 {
 			n = n[:i]
